@@ -6,6 +6,7 @@ open StarsimModel StarsimModel.Intervention StarsimModel.Proto
 Line protocol for C20 (one operation per line, one canonical answer per line; `bad-op` for anything not understood).
 
   reset
+  hascov 0|1                      whether the delivery class created self.coverage_dist (routine: 1, campaign: 0)
   gate ti|t                       which gate the step uses (extracted from the source by the harness)
   hioff <int>                     constant added to max_capacity in the queue slice (extracted)
   routine <thr> <fineSub> <coarse> <yearvec> <simStart> <simStop> <years|none> <sy|none> <ey|none> <prob> <annual> <dt>
@@ -40,6 +41,7 @@ def convFloat (dt : Rat) (p : Rat) : Rat :=
 structure D where
   sched : Sched := ⟨[], [], false, 1⟩
   gate : Gate := .onTi
+  hasCov : Bool := true
   hiOff : Int := 0
   known : List Nat := []
   vx : VxRec := ⟨fun _ => false, fun _ => 0, fun _ => none, fun _ => 1⟩
@@ -50,7 +52,7 @@ structure D where
   treat : TreatState := ⟨[], fun _ _ => false, [], []⟩
 
 def showErr : Err → String
-  | .value => "E:Value" | .index => "E:Index" | .type => "E:Type"
+  | .value => "E:Value" | .index => "E:Index" | .type => "E:Type" | .attr => "E:Attr"
 
 def two53 : Rat := 9007199254740992
 
@@ -148,6 +150,9 @@ def stepLine (d : D) (line : String) : D × String :=
   let bad := (d, "bad-op")
   match words line with
   | ["reset"] => ({ gate := d.gate, hiOff := d.hiOff }, "ok")
+  | ["hascov", b] => match parseBool? b with
+      | some b => ({ d with hasCov := b }, "ok")
+      | none => bad
   | ["gate", g] => if g = "ti" then ({ d with gate := .onTi }, "ok") else if g = "t" then ({ d with gate := .onTimeObj }, "ok") else bad
   | ["hioff", k] => match parseInt? k with
       | some k => ({ d with hiOff := k }, "ok")
@@ -213,7 +218,7 @@ def stepLine (d : D) (line : String) : D × String :=
             parseTriples? (·.toNat?) picks with
       | some ti, some active, some e, some draws, some picks =>
         let d := { d with known := addKnown d.known active }
-        match screenStep d.gate (convFloat d.sched.dt) d.sched d.dx d.flags ti active (checkEligibility active e)
+        match screenStep d.hasCov d.gate (convFloat d.sched.dt) d.sched d.dx d.flags ti active (checkEligibility active e)
                 (drawOf draws) (lookup2D picks (d.dx.nres - 1)) d.test with
         | .error err => (d, showErr err)
         | .ok (acc, r) =>
@@ -224,7 +229,7 @@ def stepLine (d : D) (line : String) : D × String :=
       match parseInt? ti, parseNatList? active, parseElig? ek el, parsePairs? (·.toNat?) draws,
             parseTriples? (·.toNat?) picks with
       | some ti, some active, some e, some draws, some picks =>
-        match triageStep d.gate (convFloat d.sched.dt) d.sched d.dx d.flags ti active (checkEligibility active e)
+        match triageStep d.hasCov d.gate (convFloat d.sched.dt) d.sched d.dx d.flags ti active (checkEligibility active e)
                 (drawOf draws) (lookup2D picks (d.dx.nres - 1)) with
         | .error err => (d, showErr err)
         | .ok (acc, out) => (d, s!"ok acc={showList toString acc} out={showOutcomes out}")
